@@ -329,7 +329,13 @@ def r54(ctx, fx):
             if x.get("k") == "call" and lib.pm(lib.hcallee(x), "Token::Error"):
                 # argument derives from map_into(|i| i.fragment().to_string())
                 keeps = True
-        frag = any(x.get("k") == "mcall" and x.get("name") == "fragment" for x in lib.hwalk(ei.hir["body"]))
+        # the token's text is the matched fragment: input.map_into(|i| i.fragment().to_string())
+        frag = False
+        for x in lib.hwalk(ei.hir["body"]):
+            if x.get("k") == "mcall" and x.get("name") in ("map_into", "map") and x.get("args"):
+                clo = lib.strip(x["args"][0])
+                if clo.get("k") == "closure" and any(y.get("k") == "mcall" and y.get("name") == "fragment" for y in lib.hwalk(clo.get("body", {}))):
+                    frag = True
         if not (has_report and has_label and keeps and frag):
             ctx.finding(rid, "error_impl|keeps-text", "the recovery parser must keep the unparsed text in Token::Error and report it with a label "
                         "(report=%s label=%s token=%s fragment=%s)" % (has_report, has_label, keeps, frag), ei.where)
